@@ -118,6 +118,7 @@ type childResult struct {
 	maxRSSKB  int64
 	burst     []burstKindOut
 	construct []constructOut
+	tailFails []failOut
 }
 
 func runRep(scratch string, jb job, watchdog time.Duration) *childResult {
@@ -178,6 +179,7 @@ func runRep(scratch string, jb job, watchdog time.Duration) *childResult {
 				res.done = true
 				res.burst = ro.Burst
 				res.construct = ro.Construct
+				res.tailFails = ro.Fails
 				continue
 			}
 			res.rounds = append(res.rounds, &ro)
@@ -225,6 +227,7 @@ func main() {
 		"heterogeneous headers: pools of reference-built files with the shared identity's stanza at position first/middle/last of 1, 2, 3, 8, 17, 40 stanzas (foreign stanzas: unknown types, X25519 and ssh-ed25519 for other keys); operations draw several in a row; tight-loop bursts (8 goroutines, one fresh shared identity per kind, unknown-type fillers only, no perturbed I/O) run at the end of each race child and, much longer, in a process built without -race",
 		"stalled-peer stage (child process): one operation is parked in the caller's Write/Read at header / nonce / chunk / Close positions, or in a pipe nobody reads yet; 8 peers on the same shared values must complete meanwhile; 'blocked' is decided logically (not complete within a 12 s step watchdog while parked, complete once released); a control round separates starvation (inconclusive)",
 		"construct-while-use stage (in every race child): per caller value (ssh.PublicKey ed25519/rsa, *rsa.PrivateKey, ed25519.PrivateKey, PEM bytes + key line, public key + PEM for NewEncryptedSSHIdentity, X25519 identity and strings, passphrase, plugin strings) 4 goroutines construct from it again and again while 4 goroutines use siblings built earlier; the caller's value is compared with a deep copy afterwards; the EncryptedSSHIdentity values are only used through Recipient() (decrypting costs a bcrypt run)",
+		"process-wide state (GOGC, memory limit, GOMAXPROCS, environment, working directory, umask, crypto/rand.Reader, ignored signals) is snapshotted before and compared after every burst of every race child and of the library-defaults child (staggered starts 1.5 ms apart, and work factor 16 operations nested inside work factor 18 ones); goroutine and descriptor counts are violations only if they keep growing with the number of bursts",
 		"shared lists: three []age.Identity orders of the four identities and two []age.Recipient lists, spread with ... into the calls; checked unchanged after every round that used them, plus a sequential pass",
 		"EncryptedSSHIdentity (caches the decrypted key) and plugin values are outside the property's list of types and are not exercised",
 		"decryption inputs and the check of encryption outputs come from the reference implementation (refage), validated against the CCTV vectors at start-up",
@@ -324,6 +327,7 @@ func main() {
 	objs := map[string]*objAgg{}
 	byTmpl, byKind, errClasses := map[string]int{}, map[string]int{}, map[string]int{}
 	cover := map[string]map[string]int{"goroutines": {}, "gomaxprocs": {}, "payload": {}, "mix": {}}
+	var stateChecks int64
 	var rounds, ioCalls, listChecks, seqOps, bareRounds, bareOverlapRounds, bareFirstPairs int64
 	provTab := map[string]map[string]int{}
 	variantTab := map[string]int{}
@@ -406,6 +410,11 @@ func main() {
 				r.Violate(f.Key, f.What, f.Case)
 			}
 		}
+
+		for _, f := range res.tailFails {
+			r.Violate(f.Key, f.What, f.Case)
+		}
+		stateChecks += int64(len(res.rounds))
 
 		// oracle (a): race reports of this repetition
 		for _, rp := range res.races {
@@ -542,7 +551,14 @@ func main() {
 	}
 	okDefaultRounds := 0
 	var drounds []map[string]any
+	for _, f := range dres.out.Growth {
+		r.Violate(f.Key, f.What, f.Case)
+	}
 	for i, ro := range dres.out.Rounds {
+		stateChecks++
+		for _, f := range ro.StateFails {
+			r.Violate(f.Key, f.What, f.Case)
+		}
 		r.Eval(len(ro.Ops))
 		r.Count("library_defaults_ops", int64(len(ro.Ops)))
 		nf := 0
@@ -577,6 +593,7 @@ func main() {
 		r.Inconclusive("library-defaults stage: no round with >= 8 concurrent default-work-factor passphrase operations completed")
 	}
 	r.Count("library_defaults_rounds_ok", int64(okDefaultRounds))
+	r.Count("process_state_before_after_comparisons", stateChecks)
 	r.Set("library_defaults_stage", dsum)
 	fmt.Printf("   library defaults: rounds=%d ok(default wf, >=8 in flight)=%d wall=%.1fs (+build %.1fs) peak RSS=%d MiB hang=%v\n",
 		dres.roundsDone, okDefaultRounds, dres.wallS, dres.buildS, dres.peakRSSKB/1024, dres.hang != nil)
